@@ -73,8 +73,10 @@ package ws
 // C12-W3: writers are fenced by the closed flag, so the flag is set before anything is released
 //@ func (w *WebsocketConnection).close() entry [C13,C08,C12]
 //@   requires @WSOK(w)
-//@   atcall close [C12] W3-flag-before-release: w.connectionClosed
-//@   atcall Close [C12] W3-flag-before-socket: w.connectionClosed
+// (C13: the flag is also what makes the read pump treat the read error caused by its own side's Close as a local
+// close and not report it)
+//@   atcall close [C12,C13] W3-flag-before-release: w.connectionClosed
+//@   atcall Close [C12,C13] W3-flag-before-socket: w.connectionClosed
 //@   ensures [C13] T1-closed: w.connectionClosed
 //@   ensures w.connectionClosedError == old(w.connectionClosedError)
 //@   ensures w.dataProcessing.$errReports == old(w.dataProcessing.$errReports)
